@@ -47,6 +47,27 @@ theorem C04_step (cfg : Config) (p q : Pos) (m : Move)
   · rename_i hsl; exact Inv_moveSlide hinv hib' hsl h
   · exact Inv_movePlace hinv hib' h
 
+/-- Conservation needs no configuration: for ANY well-formed position — whatever its reserves,
+    equal between the colours or not, reachable or constructed — an accepted move leaves, for
+    each colour, stones on the board + stone reserve and capstones on the board + capstone
+    reserve exactly as they were.  (This is what the correspondence evaluates on every accepted
+    move of its sessions: `move totals` before and after.) -/
+theorem C04_totals_preserved (p q : Pos) (m : Move) (hwf : p.WF) (h : Impl.move p m = .ok q)
+    (c : Color) :
+    (q.onBoard c false : Int) + q.stones c = (p.onBoard c false : Int) + p.stones c ∧
+    (q.onBoard c true : Int) + q.caps c = (p.onBoard c true : Int) + p.caps c := by
+  unfold Impl.move at h
+  split at h
+  · exact absurd h (by simp)
+  rename_i hib
+  have hib' : p.inBounds m.x m.y = true := by simpa using hib
+  split at h
+  · rename_i hsl
+    have hf := totals_moveSlide hwf hib' hsl h c false
+    have ht := totals_moveSlide hwf hib' hsl h c true
+    exact ⟨by rw [hf.1, hf.2.1], by rw [ht.1, ht.2.2]⟩
+  · exact totals_movePlace hwf hib' h c
+
 /-- A refused attempt produces no position: the game stays exactly where it was. -/
 theorem C04_refused_unchanged (p : Pos) (m : Move) (e : Err) (h : Impl.move p m = .error e) :
     (∀ q, Impl.move p m ≠ .ok q) ∧ attempt p m = p ∧ ∀ ms, run p (m :: ms) = run p ms := by
